@@ -1,6 +1,9 @@
 // hgunit: direct drivers for header-level state machines of the tree.
 //   hgunit sched <in> <out>     NodeScheduler over a bare NodeSchedulerState (graph == nullptr)
+#include <hgraph/lib/testing/runtime_support.h>
 #include <hgraph/runtime/node_scheduler.h>
+#include <hgraph/runtime/runtime.h>
+#include <hgraph/types/value/value.h>
 #include <hgraph/types/operator_dispatch.h>
 #include <hgraph/types/type_pattern.h>
 #include <hgraph/types/metadata/type_registry.h>
@@ -268,8 +271,163 @@ static int run_dispatch(const char *in_path, const char *out_path)
     return 0;
 }
 
+// ---------------------------------------------------------------------------------------------
+// native: a scheduler-using node on the GENERIC evaluate path (NodeBuilder::native - the path Python-authored nodes take: the
+// runtime, not the node, applies the validity gate), fed by two scripted native sources.
+//   input line:  a=<t:v,...> b=<t:v,...> active=a|ab ops=<S|n>:<tok>,<tok>;... end=<T>
+//                tok = s<delta>[@tag]   (requests made in start (S) or in the n-th run of the body)
+//   output line: E<t>,<n>,<next>,<is_scheduled>,<is_scheduled_now>,<has a>,<has b>; ...  X<message>  (one line per case)
+// ---------------------------------------------------------------------------------------------
+#include <map>
+#include <memory>
+static std::vector<std::string> split_by(const std::string &s, char c)
+{
+    std::vector<std::string> out;
+    std::string cur;
+    for (char ch : s)
+    {
+        if (ch == c) { out.push_back(cur); cur.clear(); }
+        else cur += ch;
+    }
+    out.push_back(cur);
+    return out;
+}
+
+static NodeBuilder scripted_source(const TSValueTypeMetaData *ts_int, const char *label, std::vector<std::pair<long long, long long>> script)
+{
+    NodeTypeMetaData schema;
+    schema.display_name   = label;
+    schema.output_schema  = ts_int;
+    schema.node_kind      = NodeKind::PullSource;
+    schema.uses_scheduler = true;
+    auto sc  = std::make_shared<std::vector<std::pair<long long, long long>>>(std::move(script));
+    auto pos = std::make_shared<std::size_t>(0);
+    NodeCallbacks cb;
+    cb.start = [sc, pos](const NodeView &view, DateTime start_time) {
+        *pos = 0;
+        if (!sc->empty())
+        {
+            const NodeScheduler sched{view.scheduler_state(), view.graph_value(), view.node_index(), start_time, view.started()};
+            sched.schedule(MIN_ST + TimeDelta{(*sc)[0].first});
+        }
+    };
+    cb.evaluate = [sc, pos](const NodeView &view, DateTime now) {
+        if (*pos < sc->size() && MIN_ST + TimeDelta{(*sc)[*pos].first} == now)
+        {
+            testing::set_output_value(view, now, Int{(*sc)[*pos].second});
+            ++*pos;
+            if (*pos < sc->size())
+            {
+                const NodeScheduler sched{view.scheduler_state(), view.graph_value(), view.node_index(), now, view.started()};
+                sched.schedule(MIN_ST + TimeDelta{(*sc)[*pos].first});
+            }
+        }
+    };
+    return NodeBuilder::native(std::move(schema), std::move(cb));
+}
+
+static int run_native(const char *in_path, const char *out_path)
+{
+    std::ifstream in(in_path);
+    FILE *out = std::fopen(out_path, "w");
+    if (!in || !out) return 64;
+    auto       &registry     = TypeRegistry::instance();
+    const auto *int_meta     = registry.register_scalar<Int>("int");
+    const auto *ts_int       = registry.ts(int_meta);
+    const auto *input_schema = registry.un_named_tsb({{"a", ts_int}, {"b", ts_int}});
+    std::string line;
+    while (std::getline(in, line))
+    {
+        std::map<std::string, std::string> kv;
+        std::istringstream is(line);
+        std::string tok;
+        while (is >> tok)
+        {
+            auto eq = tok.find('=');
+            if (eq != std::string::npos) kv[tok.substr(0, eq)] = tok.substr(eq + 1);
+        }
+        auto script_of = [&](const std::string &k) {
+            std::vector<std::pair<long long, long long>> sc;
+            for (const auto &e : split_by(kv[k], ','))
+            {
+                if (e.empty()) continue;
+                auto c = e.find(':');
+                sc.emplace_back(std::atoll(e.substr(0, c).c_str()), std::atoll(e.substr(c + 1).c_str()));
+            }
+            return sc;
+        };
+        std::map<std::string, std::vector<std::string>> ops;
+        for (const auto &grp : split_by(kv["ops"], ';'))
+        {
+            if (grp.empty()) continue;
+            auto c = grp.find(':');
+            ops[grp.substr(0, c)] = split_by(grp.substr(c + 1), ',');
+        }
+        auto apply_ops = [&ops](const std::string &key, const NodeScheduler &sched) {
+            auto it = ops.find(key);
+            if (it == ops.end()) return;
+            for (const auto &t : it->second)
+            {
+                if (t.empty() || t[0] != 's') continue;
+                auto at = t.find('@');
+                const long long d = std::atoll(t.substr(1, at == std::string::npos ? std::string::npos : at - 1).c_str());
+                if (at == std::string::npos) sched.schedule(TimeDelta{d});
+                else sched.schedule(TimeDelta{d}, t.substr(at + 1));
+            }
+        };
+        std::string buf;
+        auto runs = std::make_shared<long long>(0);
+        NodeTypeMetaData schema;
+        schema.display_name   = "timer";
+        schema.input_schema   = input_schema;
+        schema.node_kind      = NodeKind::Sink;
+        schema.uses_scheduler = true;
+        schema.active_inputs  = kv["active"] == "ab" ? std::vector<std::size_t>{0, 1} : std::vector<std::size_t>{0};
+        NodeCallbacks cb;
+        cb.start = [&, runs](const NodeView &view, DateTime start_time) {
+            *runs = 0;
+            const NodeScheduler sched{view.scheduler_state(), view.graph_value(), view.node_index(), start_time, view.started()};
+            apply_ops("S", sched);
+        };
+        cb.evaluate = [&, runs](const NodeView &view, DateTime now) {
+            const NodeScheduler sched{view.scheduler_state(), view.graph_value(), view.node_index(), now, view.started()};
+            ++*runs;
+            char tmp[200];
+            std::snprintf(tmp, sizeof tmp, "E%lld,%lld,%lld,%d,%d,%d,%d;", toff(now), *runs, sched.is_scheduled() ? toff(sched.next_scheduled_time()) : -1,
+                          sched.is_scheduled() ? 1 : 0, sched.is_scheduled_now() ? 1 : 0, sched.has_tag("a") ? 1 : 0, sched.has_tag("b") ? 1 : 0);
+            buf += tmp;
+            apply_ops(std::to_string(*runs), sched);
+        };
+        auto endpoint = TSEndpointSchema::non_peered(input_schema, {TSEndpointSchema::peered(ts_int), TSEndpointSchema::peered(ts_int)});
+        GraphBuilder gb;
+        gb.add_node(scripted_source(ts_int, "src_a", script_of("a")))
+            .add_node(scripted_source(ts_int, "src_b", script_of("b")))
+            .add_node(NodeBuilder::native(std::move(schema), std::move(cb), std::move(endpoint)))
+            .add_edge(GraphEdge{.source_node = 0, .source_path = {}, .target_node = 2, .target_path = {0}})
+            .add_edge(GraphEdge{.source_node = 1, .source_path = {}, .target_node = 2, .target_path = {1}});
+        GraphExecutorBuilder eb;
+        eb.graph_builder(std::move(gb)).start_time(MIN_ST).end_time(MIN_ST + TimeDelta{std::atoll(kv["end"].c_str())});
+        try
+        {
+            GraphExecutorValue ex = eb.make_executor();
+            ex.view().run();
+        }
+        catch (const std::exception &e)
+        {
+            std::string w = e.what();
+            for (char &ch : w) { if (ch == '\n' || ch == ' ') ch = '_'; }
+            buf += "X" + w.substr(0, 160) + ";";
+        }
+        buf += "\n";
+        std::fwrite(buf.data(), 1, buf.size(), out);
+    }
+    std::fclose(out);
+    return 0;
+}
+
 int main(int argc, char **argv)
 {
+    if (argc >= 4 && std::string(argv[1]) == "native") return run_native(argv[2], argv[3]);
     if (argc >= 4 && std::string(argv[1]) == "dispatch") return run_dispatch(argv[2], argv[3]);
     if (argc >= 4 && std::string(argv[1]) == "sched") return run_sched(argv[2], argv[3]);
     std::fprintf(stderr, "usage: hgunit sched <in> <out>\n");
